@@ -7,10 +7,11 @@ Local Open Scope N_scope.
 
 (* no critical unsupported payload (wf_wpayload): the chain decodes exactly as the same chain without the unsupported
    payloads (erase_chain drops them) - any number of them, at any positions, any body; the critical flag and the
-   reserved flag bits on implemented payload types are ignored (wpl_critical, wpl_res arbitrary there) *)
+   reserved flag bits on implemented payload types are ignored (wpl_critical, wpl_res arbitrary there); sk_is_last: an
+   Encrypted payload, if present, is the last one (RFC 7296 3.14) *)
 Theorem C13_non_critical_unsupported_payloads_are_skipped :
   forall l fuel last first ps,
-    last < 256 -> Forall wf_wpayload l -> erase_chain eap_of last l = Some ps ->
+    last < 256 -> Forall wf_wpayload l -> sk_is_last l -> erase_chain eap_of last l = Some ps ->
     (length (wenc_chain last l) < fuel)%nat -> first = chain_next last l ->
     container_decode fuel first (wenc_chain last l) = Ok ps.
 Proof. exact chain_rt. Qed.
